@@ -56,6 +56,7 @@ Accepts(c, stack) ==
     [] c.ctx = "top"  -> cx = <<>>
     [] c.ctx = "ms"   -> cx # <<>> /\ cx[Len(cx)].kind = "ctx" /\ cx[Len(cx)].sym = "["
     [] c.ctx = "part" -> \A i \in DOMAIN cx : cx[i].kind = "op" /\ cx[i].sym \in {"~", "|"}
+    [] c.ctx = "commas" -> \A i \in DOMAIN cx : cx[i].kind = "op" => cx[i].sym = ","
 
 RECURSIVE PopWhile(_, _)
 PopWhile(m, c) ==
